@@ -221,8 +221,11 @@ class Stack:
             if var == 1:
                 if kd in ("clamp", "backup"):
                     if is_real(k.in_t):
-                        L.cfg["min"] = [[-0.0, -inf, 5e-324 if k.in_t == "double" else 1e-45, -1.5][(idx + a) % 4] for a in range(k.n)]
-                        L.cfg["max"] = [[inf, 0.0, 3.0e38, 2.5][(idx + a) % 4] for a in range(k.n)]
+                        # includes a reversed box, (+0, -0), and NaN bounds: a loader must reproduce them, not "repair" them
+                        mins = [-0.0, -inf, 5e-324 if k.in_t == "double" else 1e-45, 9.0, 0.0, nan, -1.5]
+                        maxs = [inf, 0.0, 3.0e38, 2.0, -0.0, 1.0, nan]
+                        L.cfg["min"] = [mins[(idx + a) % 7] for a in range(k.n)]
+                        L.cfg["max"] = [maxs[(idx + a) % 7] for a in range(k.n)]
                     else:
                         top = {"std::size_t": 2**64 - 1, "unsigned": 2**32 - 1, "int": 2**31 - 1, "long": 2**63 - 1}[k.in_t]
                         L.cfg["min"] = [[0, 1, top - 1][(idx + a) % 3] for a in range(k.n)]
@@ -237,6 +240,14 @@ class Stack:
                     pool = [-0.0, nan, inf, 1e-45, -3.0e38, 0.1]
                     if is_real(k.out_t):
                         L.cfg["value"] = [pool[(idx + j) % len(pool)] for j in range(k.m)]
+            elif var == 3:
+                # an empty field: first extent 0, zero stored cells
+                if kd in Layer.STORAGE:
+                    L.cfg["sizes"] = [0] + [EXT[a] for a in range(1, k.n)]
+                elif kd in ("array", "probe_array"):
+                    above = self.layers[idx - 1] if idx > 0 else None
+                    if above is not None and above.kind in Layer.STORAGE:
+                        L.cfg["size"] = 0
             elif var == 2:
                 if kd in Layer.STORAGE:
                     L.cfg["sizes"] = [1 for _ in range(k.n)]
